@@ -58,7 +58,14 @@ pub(crate) fn apply_file_system_operations(
         }
         match operation {
             FileSystemOperation::DeleteDirectory(path) => {
-                if path.exists() {
+                let exists = path.try_exists().map_err(|e| {
+                    unable_to_do_something_at_path_diagnostic(
+                        path,
+                        &e.to_string(),
+                        "delete directory",
+                    )
+                })?;
+                if exists {
                     fs::remove_dir_all(path.clone()).map_err(|e| {
                         unable_to_do_something_at_path_diagnostic(
                             path,
